@@ -608,6 +608,7 @@ func main() {
 		"a case is non-trivial when the optimizer removed at least one instruction of the function/program; distinct by hash of the unoptimized instruction bytes (opt, reach), of the source (twin), of the assembled bytes (skeleton)"
 
 	if f.Replay != "" {
+		replaying = true
 		replay(f.Replay)
 		res.Write(f.Out)
 		return
@@ -616,6 +617,7 @@ func main() {
 	for _, src := range corpus {
 		checkProgram(src)
 	}
+	runDupCorpus()
 	// functions longer than 64 KiB: jump operands above 65535, with and without dead code (in main and in a literal)
 	{
 		var body strings.Builder
@@ -651,7 +653,8 @@ func main() {
 	// functions with identical live code that differ in dead code only, through RemoveDuplicates / the Script API
 	runDupFamilies(rng.Fork(), f.Scale(150, 12000))
 	skeletons(f.Scale(4, 6))
-	res.Extra = map[string]interface{}{"skeleton_max_len": f.Scale(4, 6)}
+	res.Extra = map[string]interface{}{"skeleton_max_len": f.Scale(4, 6),
+		"round8_wall_s": map[string]float64{"dedup_all_programs": dedupTime.Seconds(), "dup_families_total": familyTime.Seconds(), "script_api": scriptTime.Seconds()}}
 	res.Write(f.Out)
 }
 
